@@ -325,6 +325,7 @@ static bool run_sliding(runtime_cfg const& cfg, int reps, unsigned os_share)
             pika::sliding_semaphore sem;
             std::atomic<std::int64_t> lower_shadow{0};    // >= real lower limit at all times (raised before signal)
             std::atomic<std::int64_t> passed{0};
+            std::atomic<int> signals_in_flight{0};    // signal calls handed to an OS thread that have not run yet
             round_state(std::int64_t maxd)
               : sem(maxd, 0)
             {
@@ -350,7 +351,9 @@ static bool run_sliding(runtime_cfg const& cfg, int reps, unsigned os_share)
                     std::int64_t cur = st->lower_shadow.load();
                     while (cur < u && !st->lower_shadow.compare_exchange_weak(cur, u)) {}
                     st->sem.signal(u);
+                    st->signals_in_flight--;
                 };
+                st->signals_in_flight++;
                 if (os_sig && (u % 5) == 0) os_submit(sig);
                 else sig();
                 g_progress++;
@@ -365,6 +368,9 @@ static bool run_sliding(runtime_cfg const& cfg, int reps, unsigned os_share)
             new std::shared_ptr<round_state>(st);    // blocked waiters still reference it: never freed
             return false;
         }
+        // the last signals may still be on their way on an OS thread (later signals overtake them): the window checks below
+        // are about the state after ALL N signals
+        while (st->signals_in_flight.load() != 0) std::this_thread::sleep_for(std::chrono::microseconds(100));
         if (!sem->try_wait(N + maxd)) vio("sliding:try_wait", "try_wait inside the window returned false");
         if (sem->try_wait(N + maxd + 1)) vio("sliding:try_wait", "try_wait beyond the window returned true");
         report.add("sliding_waits", N);
